@@ -545,15 +545,16 @@ BSUB_CONSUMERS = {
     'run_target': "run_target('r', command: [cp, x, 'copy'])",
     'generator': "executable('u', @MAIN@, generator(cp, output: '@BASENAME@.gen.h', arguments: ['@INPUT@', '@OUTPUT@']).process(x))",
     'alias': "alias_target('al', x)",
+    'preprocess-depends': "meson.get_compiler('c').preprocess(@MAIN@, depends: x, output: '@PLAINNAME@.i')",
 }
 BSUB_OK = {   # which consumer positions accept which provider (the others are type errors of the build definition)
     'configure_file': ['ct-input', 'ct-arg', 'ct-depend_files', 'test-arg', 'source', 'run_target', 'generator'],
     'executable': ['ct-input', 'ct-arg', 'ct-depends', 'test-program', 'test-arg', 'run_target', 'alias'],
     'static_library': ['ct-input', 'ct-arg', 'ct-depends', 'test-arg', 'link_with', 'run_target', 'alias'],
     'shared_library': ['ct-input', 'ct-arg', 'ct-depends', 'test-arg', 'link_with', 'run_target', 'alias'],
-    'custom_target': ['ct-input', 'ct-arg', 'ct-depends', 'test-arg', 'run_target', 'generator', 'alias'],
+    'custom_target': ['ct-input', 'ct-arg', 'ct-depends', 'test-arg', 'run_target', 'generator', 'alias', 'preprocess-depends'],
     'custom_target-2': ['ct-input', 'ct-arg', 'test-arg', 'run_target', 'generator'],
-    'custom_target-plain': ['ct-input', 'ct-arg', 'ct-depends', 'test-arg', 'run_target', 'generator', 'alias'],
+    'custom_target-plain': ['ct-input', 'ct-arg', 'ct-depends', 'test-arg', 'run_target', 'generator', 'alias', 'preprocess-depends'],
     'custom_target-2-plain': ['ct-input', 'ct-arg', 'test-arg', 'run_target', 'generator'],
 }
 
